@@ -928,6 +928,9 @@ def call_builtin(ip, st, f, args, kwargs):
     impl = TABLE.get(f) if isinstance(f, (type, types.BuiltinFunctionType, types.FunctionType)) else None
     if impl is not None:
         return impl(ip, st, *args, **kwargs)
+    r = ip.task.call_real(ip, st, f, args, kwargs)
+    if r is not NotImplemented:
+        return r
     if isinstance(f, type) and issubclass(f, BaseException):
         return SExc(f, args)
     if isinstance(f, tuple) and f and f[0] == "wraps":
@@ -947,9 +950,6 @@ def call_builtin(ip, st, f, args, kwargs):
                 return ip.call_fnval(st, FnVal(ref), args, kwargs)
     if isinstance(f, types.MethodType):
         raise Unsupported(f"call of bound real method {f!r}")
-    r = ip.task.call_real(ip, st, f, args, kwargs)
-    if r is not NotImplemented:
-        return r
     # concrete call on concrete data of immutable builtin types: evaluate natively
     if _all_conc(args) and _all_conc(list(kwargs.values())) and _native_ok(f, args):
         try:
